@@ -16,7 +16,8 @@ LIB_FAIL_JOBS = [("martini2", ["PMA:3"]), ("martini2", ["PMMA:2"]), ("gromos53A6
 
 def make_op(ff, rg, g, out="out.itp", graph_kind=None, **kw):
     kind = graph_kind or ("seq" if (rg["shape"] == "linear" and g.random() < 0.4) else "json")
-    if kind == "seq" and (rg["shape"] != "linear" or rg.get("tags") or rg.get("edge_attrs")):
+    if kind == "seq" and (rg["shape"] != "linear" or rg.get("tags") or rg.get("edge_attrs") or rg.get("from_itp")
+                          or rg.get("resid_start") is not None):
         kind = "json"
     graph = {"kind": "seq", "seq": ffgen.seq_list(rg)} if kind == "seq" else \
         {"kind": "json", "text": ffgen.graph_json(rg)}
